@@ -7,7 +7,8 @@ from .. import common, libdiff, jsonx
 from ..common import coq_string, coq_list
 from . import libcommon
 
-THEOREMS = ["c11_response_preserved", "c11_fails_iff_custom_message", "c11_every_standard_message_kind_is_bridged"]
+THEOREMS = ["c11_response_preserved", "c11_fails_iff_custom_message", "c11_every_standard_message_kind_is_bridged",
+            "c11_arm_present_iff_kind_exists_under_every_feature_set"]
 
 
 def b64(s):
